@@ -158,6 +158,22 @@ class Check:
                 out.append(v)
         self.violations = out
 
+    def undecided(self, rule, fi, construct, reason, node=None):
+        """The code under a rule is written in a way the rule has no
+        recogniser for (not: an obligation failed).  Nothing is claimed
+        about it: next to a violation it is only recorded, alone it makes
+        the run analysis-broken (exit 2) - never a VIOLATION, never a
+        silent pass."""
+        line = getattr(node, 'lineno', None) or getattr(
+            construct, 'lineno', None) or (fi.lineno if fi else None)
+        self.obligations.append({
+            'rule': rule, 'function': fi.qual if fi is not None else None,
+            'file': fi.file if fi is not None else None, 'line': line,
+            'construct': norm_construct(construct)[:200],
+            'obligation': reason, 'verdict': 'UNDECIDED'})
+        self.floor_errors.append('%s undecided in %s: %s' % (
+            rule, fi.qual if fi is not None else '?', reason))
+
     def floor(self, rule, count, minimum, what):
         # ``minimum`` is the number of instances confirmed by hand on the
         # pinned tree.  Merging duplicated code is a common, harmless
